@@ -16,7 +16,7 @@ CLAIMS = {}
 
 
 def claim(pid, technique, text, note, ref):
-    from tools.manifest_table import ROUND3, ROUND4, ROUND5, ROUND6, ROUND7, ROUND8, ROUND9
+    from tools.manifest_table import ROUND3, ROUND4, ROUND5, ROUND6, ROUND7, ROUND8, ROUND9, ROUND10
     if pid in ROUND3:
         text = text.rstrip() + " Added after the third seed round: " + ROUND3[pid]
     if pid in ROUND5:
@@ -29,6 +29,8 @@ def claim(pid, technique, text, note, ref):
         text = text.rstrip() + " Added after the eighth seed round (non-default mode / resource lifecycle): " + ROUND8[pid]
     if pid in ROUND9:
         text = text.rstrip() + " Added after the ninth seed round (additive feature / new path, optimisation): " + ROUND9[pid]
+    if pid in ROUND10:
+        text = text.rstrip() + " Added after the tenth seed round (turn shift, 'equivalent' API substitution): " + ROUND10[pid]
     if pid in ROUND4:
         text = text.rstrip() + " " + ROUND4[pid]
         technique = technique + " + two-party typestate product of the dilation machines (abstract interpretation of Manager / TrafficTimer / Connector sources, EF-reachability)"
